@@ -30,7 +30,7 @@ def assignments(n, maxvar, auto_root_ok=True, with_indexfile=False):
                 yield a
 
 
-def run_case(job):
+def run_case(job, ret_files=False):
     parents, contents, recursive, auto, prefix, outmode, sched = job
     tree = Tree(parents, contents)
     if auto and not any(f.endswith(".cmake") for f in tree.files(0)):
@@ -76,8 +76,11 @@ def run_case(job):
         box.cleanup()
     msgs = [m.replace(box.root, "<box>") for m in msgs]
     nt = not msgs and nproc >= 2 if r["status"] == 0 else False
-    return {"viol": msgs[:6], "obs": common.digest([sorted(new)]) if r["status"] == 0 else None, "n": 1,
-            "nt": common.digest(job) if nt else None, "cls": msgs[0].split(":")[0] if msgs else None}
+    res = {"viol": msgs[:6], "obs": common.digest([sorted(new)]) if r["status"] == 0 else None, "n": 1,
+           "nt": common.digest(job) if nt else None, "cls": msgs[0].split(":")[0] if msgs else None}
+    if ret_files:
+        res["files"] = got if r["status"] == 0 else None
+    return res
 
 
 def jobs_for(tier):
@@ -128,7 +131,14 @@ def attribute(case, msgs):
     c[1] = ["indexfile_renamed" if x == "indexfile" else x for x in c[1]]
     if c[6]:
         c[6] = tuple(c[6])
-    return "K4" if not run_case(tuple(c))["viol"] else None
+    if run_case(tuple(c))["viol"]:
+        return None
+    # ... AND the failure has the recorded shape: the module page sits where the directory index belongs
+    orig = list(case)
+    if orig[6]:
+        orig[6] = tuple(orig[6])
+    files = run_case(tuple(orig), ret_files=True).get("files")
+    return "K4" if files is not None and dirmodel.k4_known_shape(Tree(orig[0], orig[1]), files) else None
 
 
 def replay(case):
